@@ -6,6 +6,7 @@ A guard is evaluated under an *abstract environment*:
     ('ord', 'A', 'B')            -> 'lt'|'eq'|'gt'|'un' ordering atom between two canonical expression texts
     ('bool', 'text')             -> True | False       opaque boolean atom
     ('isnone', 'text')           -> True | False       whether the expression is None
+    ('same', 'A', 'B')           -> True | False       whether the two expressions denote the same object (decides `A is B`)
 
 Expression texts are canonical: zero-argument helper predicates and properties
 whose body is a single `return <expr>` are inlined through the class table, so
@@ -286,6 +287,9 @@ class GuardEval:
                 return not isn
             return None
         ta, tb = unparse(a), unparse(b)
+        if isinstance(op, (ast.Is, ast.IsNot)) and (('same', ta, tb) in self.env or ('same', tb, ta) in self.env):
+            same = self.env.get(('same', ta, tb), self.env.get(('same', tb, ta)))      # declared: the two expressions denote one object / two objects
+            return same if isinstance(op, ast.Is) else (not same)
         if ta == tb and ('ord', ta, tb) not in self.env:
             # x ? x : reflexive unless the atom may be NaN (declared via ('nan', text))
             if self.env.get(('nan', ta)):
